@@ -10,6 +10,8 @@ MUTANTS = [
     ("insert-len-bound-off-by-one", "canid_builder.go", "if length < 0 || length > 32-from {", "if length < 0 || length > 33-from {"),
     ("insert-index-bound-excludes-append", "canid_builder.go", "if opIndex < 0 || opIndex > len(b.operations) {", "if opIndex < 0 || opIndex >= len(b.operations) {"),
     ("insert-from-31-refused", "canid_builder.go", "if from < 0 || from > 31 {", "if from < 0 || from >= 31 {"),
+    ("insert-error-names-from-as-length", "canid_builder.go", "\tif from < 0 || from > 31 {\n\t\treturn &ArgumentError{\n\t\t\tName: \"from\",", "\tif from < 0 || from > 31 {\n\t\treturn &ArgumentError{\n\t\t\tName: \"length\","),
+    ("remove-refusal-not-out-of-bounds-name", "canid_builder.go", "\tif opIndex < 0 || opIndex >= len(b.operations) {\n\t\treturn &ArgumentError{\n\t\t\tName: \"opIndex\",", "\tif opIndex < 0 || opIndex >= len(b.operations) {\n\t\treturn &ArgumentError{\n\t\t\tName: \"index\","),
     ("mask-becomes-or", "canid_builder.go", "canID &= (mask << uint32(op.from))", "canID |= (mask << uint32(op.from))"),
     ("mask-not-shifted", "canid_builder.go", "canID &= (mask << uint32(op.from))", "canID &= mask"),
     ("value-mask-width-31", "canid_builder.go", "\tmask := uint32(0xFFFFFFFF) >> uint32(32-op.len)\n\ttmpVal &= mask", "\tmask := uint32(0x7FFFFFFF) >> uint32(31-op.len)\n\ttmpVal &= mask"),
